@@ -256,7 +256,24 @@ fn template(rng: &mut Rng) -> Vec<Value> {
             v.push(json!({"op": "new_block"}));
         }
     };
-    match rng.below(7) {
+    match rng.below(8) {
+        7 => {
+            // a graph whose block numbering has a gap below its entry / exit (it went through merge): 0 -> 1 is
+            // merged into 0; the entry and the exit are among the blocks numbered above the gap
+            nb(&mut v, 4);
+            for b in 0..4 {
+                v.push(d_ins(rng, b));
+            }
+            v.push(json!({"op": "uncond_edge", "h": 0, "t": 1}));
+            v.push(json!({"op": "cond_edge", "h": 2, "t": 3, "c": 1}));
+            v.push(json!({"op": "cond_edge", "h": 2, "t": 0, "c": 2}));
+            if rng.bool() {
+                v.push(json!({"op": "uncond_edge", "h": 1, "t": 3}));
+            }
+            v.push(json!({"op": "merge"}));
+            v.push(json!({"op": "set_entry", "b": 2}));
+            v.push(json!({"op": "set_exit", "b": if rng.chance(1, 4) { 0 } else { 3 }}));
+        }
         0 | 1 => {
             // one block, 0..3 instructions
             nb(&mut v, 1);
@@ -492,6 +509,14 @@ fn targeted(out: &mut Out) {
              json!({"op": "append", "other": {"hist": [nb.clone(), ins(0, 1), {"op": "set_exit", "b": 0}]}}),
              json!({"op": "append", "other": {"self": true}}),
              json!({"op": "insert", "other": {"self": true}}),
+             json!({"op": "merge"})],
+        // insert / append of a graph whose block numbering has a gap below its entry and exit (blocks 0, 2, 3)
+        vec![nb.clone(), ins(0, 0), json!({"op": "set_entry", "b": 0}), json!({"op": "set_exit", "b": 0}),
+             json!({"op": "insert", "other": {"hist": [nb.clone(), nb.clone(), nb.clone(), nb.clone(), ins(0, 1), ins(1, 2), ins(2, 3), ins(3, 4),
+                                                        ue(0, 1), ue(2, 3), {"op": "merge"}, {"op": "set_entry", "b": 2}, {"op": "set_exit", "b": 3}]}}),
+             json!({"op": "append", "other": {"hist": [nb.clone(), nb.clone(), nb.clone(), nb.clone(), ins(0, 1), ins(1, 2), ins(2, 3), ins(3, 4),
+                                                        ue(0, 1), {"op": "cond_edge", "h": 2, "t": 3, "c": 1}, {"op": "cond_edge", "h": 2, "t": 0, "c": 2},
+                                                        {"op": "merge"}, {"op": "set_entry", "b": 2}, {"op": "set_exit", "b": 3}]}}),
              json!({"op": "merge"})],
         // blockify of one two-instruction "native instruction", and of nothing
         vec![json!({"op": "blockify", "graphs": [{"hist": [nb.clone(), ins(0, 0), ins(0, 1), {"op": "set_entry", "b": 0}, {"op": "set_exit", "b": 0}]},
